@@ -57,6 +57,40 @@ Theorem C08_pok_verifies :
 Proof. exact: pok_verifies_dkg. Qed.
 Print Assumptions C08_pok_verifies.
 
+(* the same for arbitrary party identifiers: `parties` lists the identifiers in rank order (what TPS.Init / Prover.Init are
+   given), the signers are any t or more distinct parties of it, the witness of a party is made with the share of its rank,
+   and the repaired prover combines the witnesses at the ranks *)
+Theorem C08_pok_verifies_identifiers :
+  forall (F : fieldType) (G1 G2 GT : lmodType F) (e : G1 -> G2 -> GT) (Hm : G1 -> F) (HG : G1 -> G1)
+         (RO1 : seq G1 -> F) (RO2 : seq (G2 + G1) -> F),
+  (forall (a a' : G1) (b : G2), e (a + a') b = e a b + e a' b) ->
+  (forall (c : F) (a : G1) (b : G2), e (c *: a) b = c *: e a b) ->
+  (forall (c : F) (a : G1) (b : G2), e a (c *: b) = c *: e a b) ->
+  forall N t : nat,
+  (forall i j : nat, (i <= N)%N -> (j <= N)%N -> i%:R = j%:R :> F -> i = j) ->
+  forall (pp : pparams G1 G2) (deals : seq (dealing F)) (m : seq F) (rc z : F) (r alpha beta : seq F) (gamma : F)
+         (parties sids T : seq nat) (eps delta mu : F) (gam : seq F),
+  size m = (pn pp).-1 -> (0 < pn pp)%N -> deals_ok t deals ->
+  uniq parties -> size parties = N -> uniq sids -> {subset sids <= parties} -> (t <= size sids)%N -> signers_ok N t T ->
+  let n := pn pp in
+  let bl := blind Hm HG RO1 pp m rc z r alpha beta gamma in
+  let ws := [seq unblind_point (apply_sk Hm HG pp bl.1 (dkg_sk n deals (rank_of parties id))) (sz bl.2) | id <- sids] in
+  let tpk := agg_pk n (dkg_pks pp n N deals) T in
+  sh bl.2 != 0 -> eps != 0 ->
+  verify_pok e RO2 pp tpk (prove_knowledge_ids RO2 true pp tpk bl.2 parties sids ws eps delta mu gam) = true.
+Proof. exact: pok_verifies_ids. Qed.
+Print Assumptions C08_pok_verifies_identifiers.
+
+(* the pinned tree combined the witnesses at the party IDENTIFIERS: for parties {1,2,4}, t = 2, signers {1,4} the honest proof
+   of knowledge is rejected (toy instance, by computation); at the ranks it verifies.  Real-code witness: replay of ./check C08
+   before the fix: parties [1,2,4], signers of ranks [1,3] = parties [1,4], "pairing condition unsatisfied". *)
+Theorem C08_identifier_points_refuted :
+  pok_ids_case false 0 3 2 1 [:: 1%N] [:: 1; 2; 4]%N [:: 1; 4]%N = false /\
+  pok_ids_case true 0 3 2 1 [:: 1%N] [:: 1; 2; 4]%N [:: 1; 4]%N = true /\
+  pok_ids_case false 0 3 2 1 [:: 1%N] [:: 1; 2; 4]%N [:: 1; 2]%N = true.
+Proof. exact: identifier_points_refuted. Qed.
+Print Assumptions C08_identifier_points_refuted.
+
 (* DKG arithmetic: party i holds sum_j p_j(i), publishes g2^(sum_j p_j(i)), and every list T of at least t parties
    aggregates to the same key g2^(sum_j p_j(0)) (component-wise for x and every y) *)
 Theorem C08_dkg_public_equal :
